@@ -109,7 +109,7 @@ def make_cases(rng, n):
             add('prefix-compact-size %s' % (hex_tok(dd) if dd else '0x'), 'prefix-compact-size', eq((codec.compact_size(len(dd)) + dd).hex()),
                 inline='prefix_compact_size(%s)' % (hex_tok(dd) if dd else '0x'), inline_want=codec.compact_size(len(dd)) + dd)
         elif which == 6:
-            p = rb(rng, rng.choice([1, 20, 21, 25, 33, 34]))
+            p = rb(rng, rng.choice([1, 20, 21, 25, 33, 34, 64, 100, 150, 195, 196, 197, 198, 199, 200]))
             enc = codec.b58check_encode(p)
             add('base58chk-encode %s' % hex_tok(p), 'base58chk-encode', eq('"%s"' % enc), inline='base58chkenc(%s)' % hex_tok(p), inline_str=enc)
             add('base58chk-decode %s' % enc, 'base58chk-decode', eq(p.hex()), inline='base58chkdec(%s)' % enc, inline_want=p)
@@ -148,6 +148,12 @@ def make_cases(rng, n):
             gi = le(g)
             ai, bi = le(a) % gi, le(b) % gi
             ar, br = ai.to_bytes(32, 'little').rstrip(b'\x00') or b'\x00', bi.to_bytes(32, 'little').rstrip(b'\x00') or b'\x00'
+            # boundary: the sum equals the modulus exactly / the difference is zero
+            if rng.random() < 0.4 and ai > 2 ** 40 and gi - ai > 2 ** 40:
+                bi = gi - ai
+                br = bi.to_bytes(32, 'little').rstrip(b'\x00')
+                add('add %s %s %s' % (hex_tok(ar), hex_tok(br), hex_tok(g)), 'add:group:sum-equals-modulus', eq(le32(0).hex()))
+                add('sub %s %s %s' % (hex_tok(ar), hex_tok(ar), hex_tok(g)), 'sub:group:equal-operands', eq(le32(0).hex()))
             if len(ar) >= 5 and len(br) >= 5:
                 add('add %s %s %s' % (hex_tok(ar), hex_tok(br), hex_tok(g)), 'add:group', eq(le32((ai + bi) % gi).hex()))
                 add('sub %s %s %s' % (hex_tok(ar), hex_tok(br), hex_tok(g)), 'sub:group', eq(le32((ai - bi) % gi).hex()))
